@@ -11,11 +11,15 @@ mod exec;
 mod gen;
 mod io;
 mod model;
+mod props_c05;
+mod props_c07;
+mod props_c15;
 mod props_conc;
 mod rng;
 mod runner;
 mod sched;
 mod spec;
+mod strict;
 
 use driver::{Property, RunCfg};
 
@@ -30,6 +34,13 @@ fn property(id: &str) -> Box<dyn Property> {
   match id {
     "C18" => Box::new(props_conc::c18()),
     "C19" => Box::new(props_conc::c19()),
+    "C14" => Box::new(props_conc::c14()),
+    "C10" => Box::new(props_conc::c10()),
+    "C05" => Box::new(props_c05::C05),
+    "C07" => Box::new(props_c07::C07),
+    "C15" => Box::new(props_c15::C15Prop {
+      thorough: std::env::var("VSIM_TIER").map_or(false, |t| t == "thorough"),
+    }),
     other => {
       eprintln!("HARNESS-ERROR: unknown property {}", other);
       std::process::exit(2);
@@ -39,10 +50,20 @@ fn property(id: &str) -> Box<dyn Property> {
 
 fn default_runs(id: &str, tier: &str) -> u64 {
   match (id, tier) {
-    ("C18", "quick") => 100_000,
-    ("C18", _) => 3_000_000,
-    ("C19", "quick") => 50_000,
-    ("C19", _) => 1_000_000,
+    ("C18", "quick") => 300_000,
+    ("C18", _) => 4_000_000,
+    ("C19", "quick") => 200_000,
+    ("C19", _) => 2_000_000,
+    ("C05", "quick") => 400_000,
+    ("C05", _) => 4_000_000,
+    ("C07", "quick") => 200_000,
+    ("C07", _) => 3_000_000,
+    ("C15", "quick") => 400_000,
+    ("C15", _) => 1_000_000,
+    ("C14", "quick") => 400_000,
+    ("C14", _) => 4_000_000,
+    ("C10", "quick") => 400_000,
+    ("C10", _) => 4_000_000,
     (_, "quick") => 40_000,
     _ => 1_000_000,
   }
@@ -59,10 +80,11 @@ fn main() {
   match args[1].as_str() {
     "run" => {
       let id = args.get(2).cloned().unwrap_or_default();
-      let p = property(&id);
       let tier = arg_val(&args, "--tier")
         .or_else(|| std::env::var("VERIF_TIER").ok())
         .unwrap_or_else(|| "quick".into());
+      std::env::set_var("VSIM_TIER", &tier);
+      let p = property(&id);
       let seed: u64 = arg_val(&args, "--seed")
         .or_else(|| std::env::var("VERIF_SEED").ok())
         .and_then(|s| s.parse().ok())
@@ -103,6 +125,7 @@ fn main() {
         num("--worker-id"),
         args.iter().any(|a| a == "--want-table"),
         &arg_val(&args, "--out").unwrap_or_default(),
+        &arg_val(&args, "--verif-dir").unwrap_or_else(|| verif_dir.clone()),
       );
     }
     "replay" => {
